@@ -225,7 +225,8 @@ def configs(tier, seed):
         cfgs.append(Config('(a) ignored 3-D nm=1 nd=2 flags=%s' % ''.join(map(str, v)), h_rel('a', v, 1, 2), 3000))
     cfgs.append(Config('(a) ignored 2-D nm=2 flags=140', h_rel('a', (1, 4, 0), 2), 3000))
     if not q:
-        cfgs.append(Config('(a) ignored 2-D nm=2 flags=149', h_rel('a', (1, 4, 9), 2), 6000))
+        pass
+        # '(a) ignored 2-D nm=2 flags=149' ran into its 6000 s limit (every fork of the fork-mode kinds times two models): not run
     # (b) (c) (d) (e)
     lim = [(1, 4, 2), (4, 3, 1), (2, 4, 4, 3)] if q else \
         [v for v in itertools.product((1, 2, 3, 4), repeat=3) if sum(f in FITTED for f in v) >= 2 and (2 in v or 3 in v)] + [(2, 4, 4, 3)]
